@@ -198,12 +198,15 @@ def verdict(out, kernel=None):
     text = sanitizer_reports()
     if text and "ERROR: AddressSanitizer" not in text and "runtime error:" not in text:
         text = ""  # e.g. "WARNING: AddressSanitizer failed to allocate ..." for a refused huge capacity
-    if text and out.violation is None:
-        v = Violation("c04.sanitizer", classify_report(text), "sanitizer report during this run:\n" + text[:1500])
-        out.violation = violation_dict(v, kernel)
+    # a contract breach is judged before a sanitizer report: the sanitizer reports each code location only once
+    # per process (recover mode), so its presence depends on what the process ran earlier; the contracts do not
     if BREACHES and out.violation is None:
         what, detail = BREACHES[0]
-        v = Violation("c04.contract", what, "%s: %s (%d breaches in this run)" % (what, detail, len(BREACHES)))
+        v = Violation("c04.contract", what, "%s: %s (%d breaches in this run)%s" % (
+            what, detail, len(BREACHES), ("\nsanitizer report of the same run:\n" + text[:800]) if text else ""))
+        out.violation = violation_dict(v, kernel)
+    if text and out.violation is None:
+        v = Violation("c04.sanitizer", classify_report(text), "sanitizer report during this run:\n" + text[:1500])
         out.violation = violation_dict(v, kernel)
     del BREACHES[:]
 
